@@ -173,7 +173,9 @@ func runSettleBehaviour(t *testing.T, res *drv.Result, cfg settleCfg, steps []wS
 		}
 		r.chs, r.id = map[string]*client.Channel{"A": chA, "B": chB}, chA.ID()
 		go func() { _ = chA.Watch(w.P[0]) }()
-		go func() { _ = chB.Watch(w.P[1]) }()
+		if os.Getenv("VERIF_NOWATCH") != "B" || cfg.Adversary { // honest runs also with a party that never calls Watch
+			go func() { _ = chB.Watch(w.P[1]) }()
+		}
 		w.Quiesce()
 		total := int64(2 * InitialDeposit)
 		// funding takes exactly the agreed amounts
